@@ -1450,6 +1450,14 @@ class Tile(Linop):
         return Sum(self.oshape, self.axes)
 
 
+def _blocks_tile_exactly(shape, blk_shape, blk_strides):
+    D = len(blk_shape)
+    return all(
+        b == s and n % b == 0
+        for n, b, s in zip(shape[-D:], blk_shape, blk_strides)
+    )
+
+
 class ArrayToBlocks(Linop):
     """Extract blocks from an array in a sliding window manner.
 
@@ -1486,7 +1494,15 @@ class ArrayToBlocks(Linop):
         return BlocksToArray(self.ishape, self.blk_shape, self.blk_strides)
 
     def _normal_linop(self):
-        return Identity(self.ishape)
+        # Identity only when the blocks tile the array exactly; with
+        # overlapping or gapped blocks the normal operator weights every
+        # element by the number of blocks that contain it.
+        if _blocks_tile_exactly(
+            self.ishape, self.blk_shape, self.blk_strides
+        ):
+            return Identity(self.ishape)
+
+        return super()._normal_linop()
 
 
 class BlocksToArray(Linop):
@@ -1525,7 +1541,12 @@ class BlocksToArray(Linop):
         return ArrayToBlocks(self.oshape, self.blk_shape, self.blk_strides)
 
     def _normal_linop(self):
-        return Identity(self.ishape)
+        if _blocks_tile_exactly(
+            self.oshape, self.blk_shape, self.blk_strides
+        ):
+            return Identity(self.ishape)
+
+        return super()._normal_linop()
 
 
 def Gradient(ishape, axes=None):
